@@ -40,7 +40,7 @@ def simple(d):
 
 
 def gen(max_boxes, max_width=3):
-    gens = [Z(1, 1, 0.25), Z(1, 2), Z(2, 1, 0.5), Z(0, 1, 0.125), Z(1, 0), X(1, 1, 0.75), X(1, 2, 0.25), X(2, 1), X(0, 1),
+    gens = [Z(1, 1, 0.25), Z(1, 2), Z(2, 1, 0.5), Z(0, 1, -0.125), Z(1, 0), X(1, 1, -0.25), X(1, 2, 1.25), X(2, 1), X(0, 1),   # phases of any sign / size
             X(1, 0, 0.5), Z(0, 2), X(2, 0), H, SWAP, scalar(0.5 + 0.5j), Z(2, 2, 0.375)]
 
     def rec(dom, width, bs, offs, depth):
